@@ -25,21 +25,24 @@ ASSUMPTIONS = ["a datagram is shorter than 2^32 - 2^17 octets (`unsigned int off
                "builders are C strings (no NUL) and the packet buffer has room for header + name + 2 + 4 (+ 11 with EDNS) octets, "
                "as in dns_internal.cc (RESOLV_BUFSZ vs NS_MAXDNAME)"]
 MANIFEST = {
-    "text": "full for decoding: the Lean model follows rfc1035HeaderUnpack/NameUnpack/QueryUnpack/RRUnpack/MessageUnpack branch by "
-            "branch with every buffer access explicit (an access outside the datagram or the name buffer is the outcome oob, a failed "
-            "assert is abort, an exhausted iteration budget is fuel) and it is proved for every byte list that none of the three "
-            "happens (compression loops included: the budget ns+66 always suffices) and that all offsets stay inside the datagram; "
-            "for every message in the encoder relation (labels 1..63, any compression pointers to encoded suffixes, at most 65 "
-            "pointer hops per name, names < 256 octets) the decoded header, question and A/AAAA/PTR/CNAME/other records equal the "
-            "encoded ones; header pack/unpack and the packed query round-trip. Three deviations are proved as counterexamples and "
-            "kept as known findings: a 66-hop compressed name is rejected, a pointer to the root label leaves a trailing dot, and "
-            "the EDNS OPT record is packed with memcpy(dst, NULL, 0). The real code runs under ASan/UBSan with exact-size heap "
-            "buffers against the model and against a reference encoder/strict decoder written from RFC 1035",
+    "text": "full for memory safety and termination: the Lean model follows rfc1035HeaderUnpack/NameUnpack/QueryUnpack/RRUnpack/"
+            "MessageUnpack branch by branch with every buffer access explicit (an access outside the datagram or the name buffer is the "
+            "outcome oob, a failed assert is abort, an exhausted iteration budget is fuel) and it is proved for every byte list and every "
+            "name-buffer size that none of the three happens (compression loops included: the budget ns+66 always suffices), that all "
+            "offsets stay inside the datagram and all names are NUL-terminated inside their buffers. partial for faithfulness: for every "
+            "message in the encoder relation (labels 1..63, compression pointers to encoded suffixes anywhere in the datagram, names < 256 "
+            "octets, at most 65 pointer hops per name, no pointer to a bare root label behind a label) the decoded header, question and "
+            "A/AAAA/PTR/CNAME/other records equal the encoded ones, the decoded text determines the labels, header pack/unpack and the "
+            "packed query (with and without EDNS) round-trip; the two excluded regions are proved as counterexamples and kept as known "
+            "findings (a 66-hop compressed name is rejected; label + pointer to the root label decodes with a trailing dot), as is the "
+            "memcpy(dst, NULL, 0) of the EDNS OPT record. The real code runs under ASan/UBSan with exact-size heap buffers against the "
+            "model and against a reference encoder and reference decoder written from RFC 1035",
     "note": "trusted: Lean kernel (+axioms as printed), translator of limits, harness, python reference codec; "
             "specified not verified: libc primitives; not modelled: rfc1035QueryCompare, rfc1035ErrorMessage, heap management of "
-            "rfc1035MessageDestroy/RRDestroy (ASan only)",
+            "rfc1035MessageDestroy/RRDestroy (ASan only); not proved: the converse (every accepted name is an encoding)",
     "technique": "Lean 4 proof (induction on the iteration budget with a (name-room, recursion-depth) measure; encoder relation with "
-                 "compression) + constants translator + ASan/UBSan differential run with reference encoder and strict decoder",
+                 "compression, induction on its derivations) + constants translator + ASan/UBSan differential run with reference "
+                 "encoder and reference decoder",
 }
 
 MAXLABEL = 63
